@@ -13,6 +13,9 @@ pub enum Focus {
     /// the same machine, observed for what C05 says about the error hook: it sees exactly the error of a failing message, once,
     /// and nothing when the message succeeds - here with the library's own command implementations as handlers
     C05,
+    /// the same machine under C10's name: a message of library commands that succeeds is framed exactly, and one whose
+    /// answer cannot be written does not succeed
+    C10,
     C13,
     C15,
     C16,
@@ -132,7 +135,7 @@ fn gen_unit(rng: &mut Rng, focus: Focus) -> U {
     // weights per focus
     let w = rng.usize(100);
     let (a, b, c) = match focus {
-        Focus::C13 | Focus::C05 => (45, 60, 80), // queue+errors | registers | common
+        Focus::C13 | Focus::C05 | Focus::C10 => (45, 60, 80), // queue+errors | registers | common
         Focus::C15 => (10, 80, 90),
         Focus::C16 => (15, 40, 92),
     };
@@ -880,7 +883,7 @@ fn run_history<Q: QueueBackend + 'static>(rng: &mut Rng, ctx: &mut Ctx, focus: F
 }
 
 pub fn run(cfg: &Cfg, rep: &mut Report, focus: Focus) {
-    let n = cfg.n(30, 750_000, 15_000_000) / if focus == Focus::C05 { 4 } else { 1 };
+    let n = cfg.n(30, 750_000, 15_000_000) / if focus == Focus::C05 || focus == Focus::C10 { 4 } else { 1 };
     run_cases(cfg, "histories", n, rep, |rng, ctx| match ctx.index % 3 {
         0 => run_history::<std::collections::VecDeque<Error>>(rng, ctx, focus),
         1 => run_history::<Vec<Error>>(rng, ctx, focus),
